@@ -21,6 +21,7 @@ from .values import (
     JSBoundMethod,
     _JS_WHITESPACE,
     array_index,
+    js_number,
     js_pow,
     to_integer,
     to_string,
@@ -575,40 +576,63 @@ class Context:
 
         def floor_fn(*args):
             x = to_number(args[0]) if args else float("nan")
-            if x != x or math.isinf(x):
-                return x
-            return math.floor(x)
+            if x != x or math.isinf(x) or x == 0:
+                return x  # NaN, the infinities and both zeros are their own floor
+            return js_number(math.floor(x))
 
         def ceil_fn(*args):
             x = to_number(args[0]) if args else float("nan")
-            if x != x or math.isinf(x):
+            if x != x or math.isinf(x) or x == 0:
                 return x
-            return math.ceil(x)
+            result = math.ceil(x)
+            # Numbers in (-1, 0) round up to -0; a host int has no negative zero
+            return js_number(result) if result != 0 else -0.0
 
         def round_fn(*args):
             x = to_number(args[0]) if args else float("nan")
-            if x != x or math.isinf(x):
+            if x != x or math.isinf(x) or x == 0:
                 return x
-            # JavaScript-style round (round half towards positive infinity)
-            return math.floor(x + 0.5)
+            # Round half towards positive infinity. x - floor(x) is exact, while
+            # x + 0.5 is not (0.49999999999999994 + 0.5 == 1.0)
+            result = math.floor(x)
+            if x - result >= 0.5:
+                result += 1
+            # Numbers in [-0.5, 0) round to -0; a host int has no negative zero
+            return js_number(result) if result != 0 or x > 0 else -0.0
 
         def trunc_fn(*args):
             x = to_number(args[0]) if args else float("nan")
-            if x != x or math.isinf(x):
+            if x != x or math.isinf(x) or x == 0:
                 return x
-            return math.trunc(x)
+            result = math.trunc(x)
+            # Numbers in (-1, 0) truncate to -0; a host int has no negative zero
+            return js_number(result) if result != 0 or x > 0 else -0.0
 
         def min_fn(*args):
             if not args:
                 return float("inf")
             nums = [to_number(a) for a in args]
-            return min(nums)
+            result = nums[0]
+            for n in nums:
+                if n != n:
+                    return n  # NaN if any argument is NaN
+                # -0 is smaller than +0, which < and min() do not see
+                if n < result or (n == 0 and result == 0 and math.copysign(1, n) < 0):
+                    result = n
+            return result
 
         def max_fn(*args):
             if not args:
                 return float("-inf")
             nums = [to_number(a) for a in args]
-            return max(nums)
+            result = nums[0]
+            for n in nums:
+                if n != n:
+                    return n  # NaN if any argument is NaN
+                # +0 is larger than -0, which > and max() do not see
+                if n > result or (n == 0 and result == 0 and math.copysign(1, n) > 0):
+                    result = n
+            return result
 
         def pow_fn(*args):
             x = to_number(args[0]) if args else float("nan")
@@ -684,7 +708,7 @@ class Context:
                 return 1
             if x < 0:
                 return -1
-            return 0
+            return x  # +0 or -0
 
         def imul_fn(*args):
             # 32-bit integer multiplication
@@ -938,7 +962,9 @@ class Context:
                 found = True
             if not found:
                 return float("nan")
-            return sign * result
+            # parseInt("-0") is -0 (a host int has no negative zero); a long digit
+            # string is rounded to a double
+            return js_number(sign * result) if result or sign > 0 else -0.0
 
         def parseFloat_fn(*args):
             s = to_string(args[0]) if args else ""
@@ -1289,7 +1315,9 @@ class Context:
             found = True
         if not found:
             return float("nan")
-        return sign * result
+        # parseInt("-0") is -0 (a host int has no negative zero); a long digit
+        # string is rounded to a double
+        return js_number(sign * result) if result or sign > 0 else -0.0
 
     def _global_parsefloat(self, *args):
         """Global parseFloat."""
